@@ -251,4 +251,8 @@ def run(prog: Program, rep, tier="quick"):
     rep.floor("R09.2", 6)
     rep.floor("R09.4", 4)
     rep.floor("R09.5", 3)
+    from sa.common import share
+    from rules import c07
+    share(rep, lambda: c07.r07_1(prog, rep), "R09.7", lambda o: o.rule == "R07.1b",
+          "durability point of every locked write (shared with R07.1b): flush, fsync when configured and close of the handle precede the rename")
     rep.floor("R09.6", 2)
